@@ -448,6 +448,36 @@ LIVE_OPS = [
 ]
 
 
+POSITIONAL = [
+    # documented order: convert(pressure_mode, pressure_unit, loading_basis, loading_unit, material_basis, material_unit)
+    (('absolute', 'kPa', 'mass', 'mg'), dict(pressure_mode='absolute', pressure_unit='kPa', loading_basis='mass', loading_unit='mg')),
+    (('relative', None, 'molar', 'mol', 'volume', 'cm3'), dict(pressure_mode='relative', loading_basis='molar', loading_unit='mol', material_basis='volume', material_unit='cm3')),
+    ((None, None, 'fraction'), dict(loading_basis='fraction')),
+    ((None, None, None, None, 'mass', 'kg'), dict(material_basis='mass', material_unit='kg')),
+]
+POSITIONAL_SINGLE = [('convert_pressure', ('absolute', 'torr'), dict(mode_to='absolute', unit_to='torr')), ('convert_loading', ('mass', 'g'), dict(basis_to='mass', unit_to='g')),
+                     ('convert_material', ('molar', 'mmol'), dict(basis_to='molar', unit_to='mmol')), ('convert_temperature', ('°C',), dict(unit_to='°C'))]
+
+
+def check_positional(ctx):
+    """Arguments given by position mean what the documented signature says: the result equals the keyword call."""
+    setup_variant('A')
+    ev = nt = 0
+    for init in (INIT_A, ('absolute', 'kPa', 'percent', None, 'volume', 'cm3', 'K')):
+        for op, args, kw in [('convert', a, k) for a, k in POSITIONAL] + POSITIONAL_SINGLE:
+            a_, b_ = build('A', init, P0, L0), build('A', init, P0, L0)
+            oa, ob = core.call(getattr(a_, op), *args), core.call(getattr(b_, op), **kw)
+            ev += 1
+            nt += 1
+            same = oa.ok == ob.ok and getlab(a_) == getlab(b_) and numpy.allclose(a_.data_raw['pressure'].values, b_.data_raw['pressure'].values, rtol=1e-12) \
+                and numpy.allclose(a_.data_raw['loading'].values, b_.data_raw['loading'].values, rtol=1e-12)
+            if not same:
+                ctx.violate(core.make_violation({'check': 'positional-arguments', 'op': op},
+                                                f'{op}{args} from {init} gives labels {getlab(a_)} ({oa.brief()[:60]}) but the same call by keyword {kw} gives {getlab(b_)} ({ob.brief()[:60]})',
+                                                {'op': op, 'args': list(args), 'kwargs': kw}))
+    ctx.add('positional_arguments', ev, nt)
+
+
 def work_live(arg):
     """Every history in `hists` applied step by step to one live isotherm; after each step labels and data against the reference."""
     vn, init_lab, hists = arg
@@ -595,6 +625,7 @@ def run(ctx):
     ctx.cov['distinct_nontrivial'] = sum(v for k, v in outcomes.items() if k.split(':')[2] == 'ok')
     check_live_histories(ctx)
     check_aliasing(ctx)
+    check_positional(ctx)
     ctx.cov['rule'] = ('BFS to fixpoint over the reachable label states of a real PointIsotherm; every alphabet operation '
                        '(convert_pressure/loading/material/temperature/convert with omitted, current, valid, bogus arguments) is '
                        'executed from every state on a rebuilt isotherm with filled interpolator caches. Non-trivial = the call '
